@@ -157,15 +157,3 @@ struct class_std__basic_ostream _ZSt4cerr;
 struct class_std__basic_ostream _ZSt4cout;
 #endif
 #endif
-/* RTTI vtables of libstdc++ referenced by type_info objects: only their addresses are used */
-#if !defined(VERIF_NATIVE_REAL)
-#ifdef DECLG__ZTVN10__cxxabiv117__class_type_infoE
-u8 *_ZTVN10__cxxabiv117__class_type_infoE;
-#endif
-#ifdef DECLG__ZTVN10__cxxabiv120__si_class_type_infoE
-u8 *_ZTVN10__cxxabiv120__si_class_type_infoE;
-#endif
-#ifdef DECLG__ZTVN10__cxxabiv121__vmi_class_type_infoE
-u8 *_ZTVN10__cxxabiv121__vmi_class_type_infoE;
-#endif
-#endif
